@@ -18,9 +18,9 @@ Datatypes are ORACLES (`Ops`): conversion `dt(x)`, validation `dt.validate(x)`, 
   nobody catches: the constructor is left at once (`CfgErr.raised`, reported as "error creating <m>");
 * `value`/`default` are checked against the FINAL datatype in `_handle_writes` (repaired tree; the pinned
   tree checked against the datatype as it was when the entry was reached and swallowed the final check);
-* a `Limit` parameter without own datatype has `ValueType()` while its cfg is applied: every datatype
-  property in its cfg is silently ignored (`ValueType.setProperty`), its `value` is unchecked until the
-  datatype is derived from the base parameter; a configured `default` is overwritten by `set_datatype`;
+* the datatype of a `Limit` parameter without own datatype is a COPY of the base parameter's datatype, derived
+  before the limit's cfg is applied (repaired tree; the pinned tree applied the cfg to `ValueType()`, whose
+  `setProperty` ignores everything, and derived the datatype afterwards);
 * `checkProperties` (mandatory, min ≤ max) runs only when nothing was collected before, and the module
   check stops at the first missing mandatory property.
 -/
@@ -55,6 +55,7 @@ inductive CfgErr where
   | noDatatype (param : Name)
   | needsCfg (param : Name)
   | unknownNames (keys : List Name)
+  | unknownProp (name key : Name)       -- "'<name>' has no property '<key>'"
   | mandatory (key : Name)
   | badDatatype (param : Name)
   | raised
@@ -145,16 +146,22 @@ structure ModPropsOut (Val : Type) where
   errs : List CfgErr
   raised : Bool
 
+/-- keys other than `value` in the dict given for a module property (repaired tree: collected, not ignored) -/
+def extraKeys {Val : Type} : Option (Entry Val) → List Name
+  | some (.acc items) => (items.map (·.1)).filter (fun k => k != "value")
+  | _ => []
+
 def modPropStep {Val : Type} (cfg : Cfg Val) (acc : ModPropsOut Val) (d : ModPropDesc Val) : ModPropsOut Val :=
   if acc.raised then acc else
+  let ex := (extraKeys (lookup d.name cfg)).map (CfgErr.unknownProp d.name)
   match applyModProp d (lookup d.name cfg) with
   | .absent => match d.classValue with
-    | some v => { acc with values := acc.values ++ [(d.name, v)] }
-    | none => acc
-  | .set v => { acc with values := acc.values ++ [(d.name, v)] }
+    | some v => { acc with values := acc.values ++ [(d.name, v)], errs := acc.errs ++ ex }
+    | none => { acc with errs := acc.errs ++ ex }
+  | .set v => { acc with values := acc.values ++ [(d.name, v)], errs := acc.errs ++ ex }
   | .bad => match d.classValue with
-    | some v => { acc with values := acc.values ++ [(d.name, v)], errs := acc.errs ++ [.badModProp d.name] }
-    | none => { acc with errs := acc.errs ++ [.badModProp d.name] }
+    | some v => { acc with values := acc.values ++ [(d.name, v)], errs := acc.errs ++ ex ++ [.badModProp d.name] }
+    | none => { acc with errs := acc.errs ++ ex ++ [.badModProp d.name] }
   | .raised => { acc with raised := true }
 
 def applyModProps {Val : Type} (ds : List (ModPropDesc Val)) (cfg : Cfg Val) : ModPropsOut Val :=
@@ -206,8 +213,10 @@ inductive LimitRes (DT Val : Type) where
   | go (a : Acc DT Val)
   | noBase
   | baseUntyped
+  | baseBad                 -- `datatype.copy()` of an inconsistent base datatype raises (caught, reported on the base)
 
-/-- derivation of the datatype of a `Limit` from the base parameter (already on the instance) -/
+/-- derivation of the datatype of a `Limit` from the base parameter (already on the instance): a copy of the base's
+datatype; `DataType.copy` rebuilds the datatype and so fails exactly when `checkProperties` fails -/
 def deriveLimit {DT Val : Type} (ops : Ops DT Val) (insts : List (PInst DT Val)) (pd : ParamDesc DT Val)
     (a : Acc DT Val) : LimitRes DT Val :=
   match pd.limit with
@@ -221,7 +230,10 @@ def deriveLimit {DT Val : Type} (ops : Ops DT Val) (insts : List (PInst DT Val))
       | some bdt =>
         match a.dt with
         | some _ => .go a          -- the programmer gave a datatype
-        | none => .go { a with dt := some (ops.limitDT k bdt), default := some (ops.limitDefault k bdt) }
+        | none =>
+          if ops.checkDT bdt then
+            .go { a with dt := some (ops.limitDT k bdt), default := some (ops.limitDefault k bdt) }
+          else .baseBad
 
 structure POut (DT Val : Type) where
   inst : PInst DT Val
@@ -270,21 +282,17 @@ def startFromValue {DT Val : Type} (ops : Ops DT Val) (pd : ParamDesc DT Val) (a
   ⟨mkInst pd.name { a with value := some v', default := some d } false true, [],
     if pd.hasWrite then some v else none⟩
 
-def handleWrites {DT Val : Type} (ops : Ops DT Val) (insts : List (PInst DT Val)) (pd : ParamDesc DT Val)
-    (a : Acc DT Val) : POut DT Val :=
-  match deriveLimit ops insts pd a with
-  | .noBase => ⟨mkInst pd.name a false false, [.limitNoBase pd.name], none⟩
-  | .baseUntyped => ⟨mkInst pd.name a false false, [], none⟩
-  | .go a =>
-    match a.dt with
-    | none => ⟨mkInst pd.name a false false, [.noDatatype pd.name], none⟩
-    | some dt =>
-      match finalCheck ops dt a with
-      | some key => ⟨mkInst pd.name a false false, [.badValue pd.name key], none⟩
-      | none =>
-        match a.value with
-        | none => startFromDefault ops pd a dt
-        | some v => startFromValue ops pd a dt v
+def handleWrites {DT Val : Type} (ops : Ops DT Val) (pd : ParamDesc DT Val) (a : Acc DT Val) : POut DT Val :=
+  match a.dt with
+  | none =>       -- for a limit the error was reported when the derivation failed
+    ⟨mkInst pd.name a false false, if pd.limit.isSome then [] else [.noDatatype pd.name], none⟩
+  | some dt =>
+    match finalCheck ops dt a with
+    | some key => ⟨mkInst pd.name a false false, [.badValue pd.name key], none⟩
+    | none =>
+      match a.value with
+      | none => startFromDefault ops pd a dt
+      | some v => startFromValue ops pd a dt v
 
 /-! ## one accessible -/
 
@@ -294,13 +302,29 @@ inductive PRes (DT Val : Type) where
 
 def classAcc {DT Val : Type} (pd : ParamDesc DT Val) : Acc DT Val := ⟨pd.dt, pd.own, pd.value, pd.default⟩
 
+structure Start (DT Val : Type) where
+  acc : Acc DT Val
+  errs : List CfgErr
+
+/-- repaired tree: the datatype of a `Limit` is derived (from the base parameter already on the instance) BEFORE
+its cfg is applied; when that is not possible the cfg is applied to the parameter as the class left it
+(`ValueType()`: datatype properties ignored) and the reason is collected -/
+def startAcc {DT Val : Type} (ops : Ops DT Val) (insts : List (PInst DT Val)) (pd : ParamDesc DT Val) : Start DT Val :=
+  match deriveLimit ops insts pd (classAcc pd) with
+  | .go a => ⟨a, []⟩
+  | .noBase => ⟨classAcc pd, [.limitNoBase pd.name]⟩
+  | .baseUntyped => ⟨classAcc pd, []⟩
+  | .baseBad => ⟨classAcc pd, [.badDatatype pd.base]⟩
+
+def withErrs {DT Val : Type} (es : List CfgErr) (o : POut DT Val) : POut DT Val := { o with errs := es ++ o.errs }
+
 def addParam {DT Val : Type} (ops : Ops DT Val) (insts : List (PInst DT Val)) (pd : ParamDesc DT Val) :
     Option (Entry Val) → PRes DT Val
-  | none => .done (handleWrites ops insts pd (classAcc pd))
+  | none => .done (withErrs (startAcc ops insts pd).errs (handleWrites ops pd (startAcc ops insts pd).acc))
   | some (.prop _) => .raised            -- `cfg.items()` on something that is not a dict: AttributeError
   | some (.acc items) =>
-    match applyEntries ops (classAcc pd) items with
-    | some a => .done (handleWrites ops insts pd a)
+    match applyEntries ops (startAcc ops insts pd).acc items with
+    | some a => .done (withErrs (startAcc ops insts pd).errs (handleWrites ops pd a))
     | none => .raised
 
 /-! ## all accessibles (modulebase.py:389-397) -/
